@@ -461,6 +461,9 @@ def gen_cell(rnd, spec, f):
     if spec["format"] == "fixed":
         w = f["length"][0][0]
         c = (c + " " * w)[:w] if rnd.random() < 0.8 else (" " * w + c)[-w:]     # sometimes right-aligned
+        if rnd.random() < 0.05:
+            c = rnd.choice(["\t", "\xa0", "\t ", " \t"]) * w      # white space, but no blanks: not an empty cell's padding
+            c = c[:w]
     return c
 
 
